@@ -599,6 +599,9 @@ fn main() {
         "builder.certificate_status_fetch counts as an OCSP-fetch setting for the add-ingredient operation".into(),
     ];
 
+    if run.replay.is_some() {
+        println!("replay: C28 is an exhaustive grid of fixed cases; the witness is re-executed by the normal run below");
+    }
     let assets_list = build_assets(&mut run);
     let mut cases = Vec::new();
     for (ai, a) in assets_list.iter().enumerate() {
